@@ -4,6 +4,7 @@ import updfam
 import vlib
 
 PID = "C07"
+NEEDS_CLI = True
 RULE = ("the update family of C06 (generated files incl. included files, scripted databases by call index, both separators, default/strict "
         "column check) with roughly half of the expectations already correct, failing and succeeding system commands, skipped records and `halt`; "
         "records of the file before and after Runner::update_test_file are compared field by field (kind, SQL/command, conditions, connection, "
@@ -179,4 +180,10 @@ def execute(cases, tier):
     stats = {"evaluations": len(allc), "model_evaluations": len(rows), "distinct_nontrivial": len(keys), "rule": RULE,
              "categories": dict(sorted(cats.items())), "vm_compute_crosschecked": vm_n,
              "samples": [{"files": c["files"], "answers": c["answers"][:3]} for c in allc[:2]], "disagreements": len(disagreements)}
+    # one invocation of the real binary over SEVERAL files: each file is updated under its own modes, with its own runner
+    for clause, what, detail in updfam.cli_tree_checks("override"):
+        if clause in ('frame', 'debris'):
+            disagreements.append({"case": {"family": "cli-tree", "invocation": "--override t/a_modes.slt t/b_plain.slt"}, "impl": detail,
+                                  "model": "the second file is untouched and passes on its own; the included same-stem file is intact",
+                                  "spec": "contradicts L1 (C07_frame, several files in one --override): " + what, "broken": "corr_C07_cli_tree"})
     return {"stats": stats, "disagreements": disagreements, "known_hits": [], "observables": []}
